@@ -267,6 +267,54 @@ pub fn run_c04(rep: &mut Report) {
     rep.require("decoder states", states.len() as u64, 1024);
     rep.require("model states covered", model_states.len() as u64, 1024);
 
+    // ---------------------------------------------------------------- change_layout is not a key event: it must leave the record alone
+    {
+        let mut n = 0u64;
+        for (_name, path) in states.iter() {
+            let r = guarded(|| {
+                let mut dec = EventDecoder::new(NullLayout, INITIAL_MODE);
+                for p in path {
+                    match p {
+                        Op::Ev(k, s) => {
+                            let _ = dec.process_keyevent(KeyEvent::new(*k, *s));
+                        }
+                        Op::Mode(h) => dec.set_ctrl_handling(*h),
+                        Op::NewLayout => {}
+                    }
+                }
+                let before = parse_debug_mods(&format!("{:?}", dec));
+                dec.change_layout(NullLayout);
+                let after = parse_debug_mods(&format!("{:?}", dec));
+                (before, after, dec.get_ctrl_handling())
+            });
+            n += 1;
+            rep.evaluations += 1;
+            if let Ok((Some(b), after, mode_now)) = r {
+                let mut m = ModModel::new();
+                let mut md = INITIAL_MODE;
+                for p in path {
+                    model_apply(&mut m, &mut md, p);
+                }
+                if after != Some(b) || b.0 != m.bits || mode_now != md {
+                    let mut full = path.clone();
+                    full.push(Op::NewLayout);
+                    rep.violate(
+                        format!("C04|state={}|mode={}|event=change_layout|want={}|got={}", mods_str(m.bits), mode_str(md), mods_str(m.bits), after.map(|a| mods_str(a.0)).unwrap_or_else(|| "unparseable".into())),
+                        format!(
+                            "EventDecoder after [{}]: change_layout() changed the reported modifier record from {} to {:?} (the record of key events says {})",
+                            path.iter().map(|o| o.show()).collect::<Vec<_>>().join(", "),
+                            mods_str(b.0),
+                            after.map(|a| mods_str(a.0)),
+                            mods_str(m.bits)
+                        ),
+                        J::obj().with("kind", J::s("events")).with("ops", ops_json(&full)),
+                    );
+                }
+            }
+        }
+        rep.count("states_in_which_change_layout_was_checked_to_leave_the_record_alone", n);
+    }
+
     // ---------------------------------------------------------------- hostile event histories
     hostile_histories(rep, &uni);
 
@@ -320,7 +368,7 @@ fn hostile_histories(rep: &mut Report, uni: &[KeyCode]) {
             let mut rng = Rng::fork(seed, 0xC04_0000 + h);
             let li = (h % 10) as usize;
             let variant = (h / 10) % 3; // 0: Keyboard<L,Set2>, 1: Keyboard<L,Set1>, 2: bare EventDecoder<Dbg<L>>
-            let ops: Vec<Op> = (0..hist_len).map(|_| random_op(&mut rng, &uni2, false)).collect();
+            let ops: Vec<Op> = (0..hist_len).map(|_| random_op(&mut rng, &uni2, variant == 2)).collect();
             let r = guarded(|| {
                 let mut model = ModModel::new();
                 let mut mode = HandleControl::Ignore;
@@ -356,7 +404,7 @@ fn hostile_histories(rep: &mut Report, uni: &[KeyCode]) {
                             match op {
                                 Op::Ev(k, s) => { let _ = dec.process_keyevent(KeyEvent::new(*k, *s)); }
                                 Op::Mode(hc) => dec.set_ctrl_handling(*hc),
-                                Op::NewLayout => {}
+                                Op::NewLayout => dec.change_layout(NullLayout),
                             }
                             model_apply(&mut model, &mut mode, op);
                             // rendering is slow: sample every 16th op and the last one
